@@ -12,6 +12,17 @@ Definition clock (issue until : bytes) (t : string) : option dval :=
   else if String.eqb t "now.Add(expiration).Format(timeFormat)" then Some (DStr until)
   else None.
 
+(** further oracles of a case, by source text (certificate text, endpoint URLs, entity ID, ...) *)
+Definition with_extra (extra : list (string * dval)) (base : string -> option dval) (t : string) : option dval :=
+  match find (fun p => String.eqb (fst p) t) extra with Some p => Some (snd p) | None => base t end.
+Definition built_tree_with (extra : list (string * dval)) (fn : string) (recv : option dval) (args : list dval) (fresh : list bytes) (issue until : bytes) (root : string) : option xml :=
+  match call builders (with_extra extra (clock issue until)) 600 fn recv args fresh with
+  | Some (d, _) => match to_gval 60 xml_schema (TNamed root) (match d with DList (x :: _) => x | o => o end) with
+                   | Some g => marshal_root xml_schema root g
+                   | None => None end
+  | None => None
+  end.
+
 Definition built_value (fn : string) (recv : option dval) (args : list dval) (fresh : list bytes) (issue until : bytes) : option (dval * list bytes) :=
   call builders (clock issue until) 400 fn recv args fresh.
 
@@ -59,6 +70,11 @@ Fixpoint xml_eqb (x y : xml) : bool :=
       end
   end.
 
+Definition built_matches_with (extra : list (string * dval)) (fn : string) (recv : option dval) (args : list dval) (fresh : list bytes) (issue until : bytes) (root : string) (obs : xml) : bool :=
+  match built_tree_with extra fn recv args fresh issue until root with
+  | Some t => xml_eqb (norm (flat (san_tree t))) (norm (strip_sig obs))
+  | None => false
+  end.
 Definition built_matches (fn : string) (recv : option dval) (args : list dval) (fresh : list bytes) (issue until : bytes) (root : string) (obs : xml) : bool :=
   match built_tree fn recv args fresh issue until root with
   | Some t => xml_eqb (norm (flat (san_tree t))) (norm (strip_sig obs))   (* the printer replaces illegal characters: C18_escape_any *)
@@ -175,4 +191,54 @@ Theorem getsaml_standard email full given sur userid username fr issue until :
 Proof.
   destruct email as [|c1 e']; destruct full as [|c2 f']; destruct given as [|c3 g']; destruct sur as [|c4 s'];
     destruct userid as [|c5 u']; destruct username as [|c6 n']; split; vm_compute; reflexivity.
+Qed.
+
+(** * the metadata document, from the source of metadata.go / identityprovider.go
+    For every configuration (flag, encryption algorithm set or not, cache duration set or not, organisation / contact
+    person present or not) and every value of the oracles: the entityID is the entity ID the handlers use as Issuer; the
+    WantAuthnRequestsSigned attribute is the configured string; the signing KeyDescriptor of both role descriptors carries
+    the response certificate; the SSO / SLO / attribute locations are the endpoints' absolute URLs; the three identifiers
+    are fresh, in call order. *)
+Definition md_oracles (eid issuer cert sso slo attr valid : bytes) : list (string * dval) :=
+  [("idp.GetEntityID(ctx)", DStr eid); ("p.GetEntityID(ctx)", DStr eid); ("IssuerFromContext(ctx)", DStr issuer);
+   ("getResponseCert(ctx, p.storage)", DList [DStr []; DNil; DNil]); ("base64.StdEncoding.EncodeToString(idpCertData)", DStr cert);
+   ("endpointConfigToEndpoints(p.Endpoints)", DNil);
+   ("endpoints.singleSignOnEndpoint.Absolute(issuer)", DStr sso); ("endpoints.singleLogoutEndpoint.Absolute(issuer)", DStr slo);
+   ("endpoints.attributeEndpoint.Absolute(issuer)", DStr attr);
+   ("time.Now().Add(p.MetadataIDPConfig.ValidUntil).UTC().Format(timeFormat)", DStr valid)].
+Definition idp_conf (want enc cache errurl : bytes) : dval :=
+  DObj "provider.IdentityProviderConfig" [("EncryptionAlgorithm", DStr enc); ("WantAuthRequestsSigned", DStr want);
+    ("MetadataIDPConfig", DObj "provider.MetadataIDPConfig" [("ValidUntil", DStr (b "nonzero")); ("CacheDuration", DStr cache); ("ErrorURL", DStr errurl)]); ("Endpoints", DNil)].
+Definition md_value (extra : list (string * dval)) (conf idp : dval) (fresh : list bytes) : option dval :=
+  match call builders (with_extra extra (clock [] [])) 600 "Config.getMetadata" (Some conf) [DNil; idp] fresh with
+  | Some (DList (x :: _), _) => Some x
+  | _ => None
+  end.
+Definition md_sat (extra : list (string * dval)) (conf idp : dval) (fresh : list bytes) (P : dval -> Prop) : Prop :=
+  match md_value extra conf idp fresh with Some d => P d | None => False end.
+
+Definition key_cert (role : string) : list pstep :=
+  [PField role; PField "KeyDescriptor"; PIndex 0; PField "KeyInfo"; PField "X509Data"; PIndex 0; PField "X509Certificate"].
+
+Theorem metadata_fields want enc cache errurl eid issuer cert sso slo attr valid id1 id2 id3 (org contact : bool) :
+  let ic := idp_conf want enc cache errurl in
+  let conf := DObj "provider.Config" [("IDPConfig", ic);
+                ("Organisation", if org then DObj "provider.Organisation" [("Name", DStr (b "n")); ("DisplayName", DStr (b "d")); ("URL", DStr (b "u"))] else DNil);
+                ("ContactPerson", if contact then DObj "provider.ContactPerson" [("ContactType", DStr (b "technical")); ("Company", DStr (b "c")); ("GivenName", DStr (b "g"));
+                                                    ("SurName", DStr (b "s")); ("EmailAddress", DStr (b "e")); ("TelephoneNumber", DStr (b "t"))] else DNil)] in
+  md_sat (md_oracles eid issuer cert sso slo attr valid) conf (DObj "provider.IdentityProvider" [("conf", ic); ("TimeFormat", DStr (b "f"))]) [id1; id2; id3]
+    (fun d =>
+       at_ d ["EntityID"] = Some (DStr eid) /\ at_ d ["Id"] = Some (DStr id1) /\
+       at_ d ["IDPSSODescriptor"; "Id"] = Some (DStr id2) /\ at_ d ["AttributeAuthorityDescriptor"; "Id"] = Some (DStr id3) /\
+       at_ d ["IDPSSODescriptor"; "WantAuthnRequestsSigned"] = Some (DStr want) /\
+       dget d (key_cert "IDPSSODescriptor") = Some (DStr cert) /\ dget d (key_cert "AttributeAuthorityDescriptor") = Some (DStr cert) /\
+       dget d [PField "IDPSSODescriptor"; PField "KeyDescriptor"; PIndex 0; PField "Use"] = Some (DStr (b "signing")) /\
+       dget d [PField "IDPSSODescriptor"; PField "SingleSignOnService"; PIndex 0; PField "Location"] = Some (DStr sso) /\
+       dget d [PField "IDPSSODescriptor"; PField "SingleSignOnService"; PIndex 1; PField "Location"] = Some (DStr sso) /\
+       dget d [PField "IDPSSODescriptor"; PField "SingleLogoutService"; PIndex 0; PField "Location"] = Some (DStr slo) /\
+       dget d [PField "IDPSSODescriptor"; PField "SingleLogoutService"; PIndex 1; PField "Location"] = Some (DStr slo) /\
+       dget d [PField "AttributeAuthorityDescriptor"; PField "AttributeService"; PIndex 0; PField "Location"] = Some (DStr attr) /\
+       at_ d ["IDPSSODescriptor"; "ValidUntil"] = Some (DStr valid)).
+Proof.
+  destruct enc as [|c1 e']; destruct cache as [|c2 k']; destruct org; destruct contact; vm_compute; repeat split; reflexivity.
 Qed.
